@@ -2,7 +2,8 @@
   Model of the emission / direct-image forward models (cross-section mode):
     taurex/util/emission.py:black_body_numba (+ _convert_lamb, _black_body_vec)
     taurex/contributions/contribution.py:contribute_tau, taurex/contributions/cia.py:contribute_cia
-    taurex/model/emission.py:set_num_gauss, evaluate_emission, path_integral, compute_final_flux
+    taurex/model/emission.py:set_num_gauss, evaluate_emission (intensity and contribution function), path_integral,
+      compute_final_flux
     taurex/model/directimage.py:compute_final_flux
     taurex/data/stellar/star.py:Star.initialize (stellar black body)
   The code is point-wise in the wavenumber except for the saturation clamp (`x.min() < 10`, minimum over
@@ -159,6 +160,24 @@ def colIntensities (k : PC α) (fl : List (Bool × Bool)) (dz dens temps : List 
   let s := surfTau dz dens temps col
   muInvs.map (fun m => intensityRows b0 s m rows)
 
+/-- the pair of `evaluate_emission` that feeds the contribution function (no emission angle):
+    `dtau_calc = 0.0; if dtau.min() < self._clamp: dtau_calc = np.exp(-dtau)` -/
+def cut (keep : Bool) (tau : α) : α :=
+  if keep then exp (-tau) else 0
+
+/-- entry `[layer, wn]` of the contribution function `evaluate_emission(...)[3]` (the `tau` that `model()` returns):
+    `_tau = layer_tau_calc - dtau_calc; tau[layer] += _tau[0]` on the zeroed table -/
+def contribOf (r : Row α) : α :=
+  0 + (cut r.keepL r.lt - cut r.keepD r.dt)
+
+/-- column `wn` of the contribution function: one entry per layer -/
+def contribFn (k : PC α) (cols : List (Col α)) (dz dens temps : List α) (col : Col α) : List α :=
+  (rowsOf k cols dz dens temps col).map contribOf
+
+/-- what the driver evaluates (`= contribFn` when `fl = flagsOf cols …`, by `rfl`) -/
+def colContrib (k : PC α) (fl : List (Bool × Bool)) (dz dens temps : List α) (col : Col α) : List α :=
+  (rowsWith k fl dz dens temps col).map contribOf
+
 /-- `sum(I*(_w/_mu))` over the angles (Python `sum`: `0 + …` left to right); `q = (I_q, w_q, _mu_q)` -/
 def angleSum (qs : List (α × α × α)) : α :=
   qs.foldl (fun a q => a + q.1 * (q.2.1 / q.2.2)) 0
@@ -208,5 +227,23 @@ def RowsOk [OfNat α 10] [LE α] (rows : List (Row α)) : Prop :=
     ∧ (r.keepL = false → r.keepD = false)
 
 end
+
+/-! ### orchestration of `partial_model` -/
+
+/-- what `EmissionModel.partial_model` asks of the model, its star and its contributions, in order.  Grids are named:
+    0 = `self.nativeWavenumberGrid`, 1 = `clip_native_to_wngrid(native_grid, wngrid)` -/
+inductive Step where
+  | initProfiles
+  | starInit (grid : Nat)
+  | prepare (contrib grid : Nat)
+  | evaluate (grid : Nat)
+  deriving DecidableEq, Repr
+
+/-- `partial_model(wngrid, cutoff_grid)`: profiles, then the star on the grid in use, then `prepare` of every contribution
+    in list order on that grid, then `evaluate_emission(grid, False)`; the grid in use is the clipped one exactly when a
+    `wngrid` is passed and `cutoff_grid` is true (`clip`) -/
+def partialModelSteps (ncontrib : Nat) (clip : Bool) : List Step :=
+  let g := if clip then 1 else 0
+  [Step.initProfiles, Step.starInit g] ++ (List.range ncontrib).map (fun i => Step.prepare i g) ++ [Step.evaluate g]
 
 end Taurex.Emission
